@@ -269,10 +269,27 @@ func (s *Stack) GetSlice(expr string) ([]any, bool) {
 	if !ok || v == nil {
 		return nil, false
 	}
-	if ireflect.IsSlice(v) {
+	// (a pointer to a slice is indexed by Resolve like the slice itself: the same here)
+	v = derefPointers(v)
+	if v != nil && ireflect.IsSlice(v) {
 		return ireflect.SliceToAny(v), true
 	}
 	return nil, false
+}
+
+// derefPointers follows non-nil pointers to the value they point to (nil for a nil pointer).
+func derefPointers(v any) any {
+	rv := reflect.ValueOf(v)
+	for rv.IsValid() && rv.Kind() == reflect.Ptr {
+		if rv.IsNil() {
+			return nil
+		}
+		rv = rv.Elem()
+	}
+	if !rv.IsValid() || !rv.CanInterface() {
+		return nil
+	}
+	return rv.Interface()
 }
 
 // GetMap returns map[string]any or converts map[string]string to map[string]any.
@@ -327,6 +344,10 @@ func (s *Stack) ForEach(expr string, fn func(index int, value any) error) error 
 	}
 
 	rv := reflect.ValueOf(v)
+	// a pointer to a collection is looped over like the collection (Resolve indexes through it too)
+	for rv.IsValid() && rv.Kind() == reflect.Ptr && !rv.IsNil() {
+		rv = rv.Elem()
+	}
 
 	switch rv.Kind() {
 	case reflect.Slice, reflect.Array:
